@@ -805,6 +805,71 @@ def request_charset_level(ctx):
             ctx.violation("text sent as %s (Content-Type %r) comes back as %r, sent was %r" % (cs, ctype, got, text), case)
 
 
+def documented_cleanups_level(ctx):
+    """the clean-ups the property allows, each on its own: exactly the documented edit is made and nothing else - and look-alikes that are
+    not covered by it stay as they are (control characters; DURATION:PT0S beside DTEND; the data-URI prefix of a base-64 PHOTO)"""
+    import base64 as b64
+    photo = b64.b64encode(bytes(range(200)) * 2).decode()
+    ev_head = ["BEGIN:VCALENDAR", "VERSION:2.0", "PRODID:-//verif c14//EN", "BEGIN:VEVENT", "UID:cu", "DTSTAMP:20240101T000000Z"]
+    ev_tail = ["END:VEVENT", "END:VCALENDAR"]
+    card = lambda extra: ["BEGIN:VCARD", "VERSION:3.0", "UID:cu", "FN:Clean Up", "N:Up;Clean;;;"] + extra + ["END:VCARD"]      # noqa: E731
+    cases = [
+        ("zero DURATION beside DTEND is dropped", False,
+         ev_head + ["DTSTART:20240102T100000Z", "DTEND:20240102T110000Z", "DURATION:PT0S", "SUMMARY:s"] + ev_tail,
+         ev_head + ["DTSTART:20240102T100000Z", "DTEND:20240102T110000Z", "SUMMARY:s"] + ev_tail),
+        ("zero DURATION without DTEND stays", False,
+         ev_head + ["DTSTART:20240102T100000Z", "DURATION:PT0S", "SUMMARY:s"] + ev_tail, None),
+        ("DURATION:PT0S in the text of another property stays", False,
+         ev_head + ["DTSTART:20240102T100000Z", "DTEND:20240102T110000Z", "SUMMARY:DURATION:PT0S", "DESCRIPTION:DTEND and DURATION:PT0S"] + ev_tail, None),
+        ("control characters are removed, TAB stays", False,
+         ev_head + ["DTSTART:20240102T100000Z", "SUMMARY:a\x01b\x08c\x0bd\x1fe\tf", "LOCATION:\x0cx"] + ev_tail,
+         ev_head + ["DTSTART:20240102T100000Z", "SUMMARY:abcde\tf", "LOCATION:x"] + ev_tail),
+        ("the data-URI prefix of a base-64 PHOTO is dropped", True,
+         card(["PHOTO;ENCODING=b;TYPE=JPEG:data:image/jpeg;base64," + photo]), card(["PHOTO;ENCODING=b;TYPE=JPEG:" + photo])),
+        ("a base-64 PHOTO without the prefix stays", True, card(["PHOTO;ENCODING=b;TYPE=JPEG:" + photo]), None),
+        ("a NOTE that quotes such a PHOTO line stays", True, card(["NOTE:see PHOTO\\;ENCODING=b:data:image/jpeg\\;base64\\,AAAA"]), None),
+        ("a PHOTO given as a link stays", True, card(["PHOTO;VALUE=uri:http://example.org/photos/cu.jpg"]), None),
+        # URI values with a comma in them: the data: URIs of vCard 4.0 (RFC 6350 6.2.4), or any link with a comma (finding F33)
+        ("a PHOTO given as a data URI (VALUE=uri) stays", True, card(["PHOTO;VALUE=uri:data:image/png;base64," + photo[:80]]), None),
+        ("a vCard 4.0 PHOTO given as a data URI stays", True,
+         ["BEGIN:VCARD", "VERSION:4.0", "UID:cu", "FN:Clean Up", "N:Up;Clean;;;", "PHOTO:data:image/jpeg;base64," + photo[:120], "END:VCARD"], None),
+        ("a URL with a comma stays", True, card(["URL:http://example.org/map?ll=48.1,11.5"]), None),
+    ]
+    for what, book, up_lines, want_lines in cases:
+        want_lines = want_lines or up_lines
+        body = "\r\n".join(up_lines) + "\r\n"
+        with App({"auth": {"type": "none"}}) as app:
+            if book:
+                app.request("MKCOL", "/u/ab/", '<?xml version="1.0"?><D:mkcol xmlns:D="DAV:" xmlns:CR="urn:ietf:params:xml:ns:carddav"><D:set><D:prop><D:resourcetype>'
+                            '<D:collection/><CR:addressbook/></D:resourcetype></D:prop></D:set></D:mkcol>', login="u:pw")
+                path, ctype = "/u/ab/cu.vcf", "text/vcard"
+            else:
+                app.request("MKCALENDAR", "/u/cal/", login="u:pw")
+                path, ctype = "/u/cal/cu.ics", "text/calendar"
+            st, _, _ = app.request("PUT", path, body, login="u:pw", CONTENT_TYPE=ctype)
+            st2, _, served = app.request("GET", path, login="u:pw")
+            st3, _, _ = app.request("PUT", path, served, login="u:pw", CONTENT_TYPE=ctype) if st2 == 200 else (None, None, None)
+            st4, _, again = app.request("GET", path, login="u:pw")
+        case = {"clean_up": what, "upload": [ln[:100] for ln in up_lines[4:-1]], "status": st}
+        ctx.case("cleanup:%s" % what, sample=case, key=["cleanup", what], nontrivial=True)
+        if st != 201 or st2 != 200:
+            ctx.violation("an object for the clean-up %r was not stored / served (%s, %s)" % (what, st, st2), case)
+            continue
+        got = canon(parse_content(served)[2][0]) if parse_content(served)[2] else None
+        want = canon(parse_content("\r\n".join(want_lines) + "\r\n")[2][0])
+        if got != want:
+            diff = sorted(set(flatten(parse_content(served))) ^ set(flatten(parse_content("\r\n".join(want_lines) + "\r\n"))))
+            # F33: vobject keeps only what precedes the first unescaped comma of a vCard value it takes for text (PHOTO / LOGO / KEY / URL ...)
+            cut = [d for d in diff if d[1] not in IGNORED_PROPS]
+            f33 = book and cut and all(d[1] in ("PHOTO", "LOGO", "KEY", "URL", "SOUND") for d in cut) and any("," in str(d[3]) for d in cut)
+            ctx.violation("clean-up %r: the served object is not the upload with exactly that edit; differing lines: %s"
+                          % (what, [(d[0], d[1], str(d[3])[:60]) for d in cut][:6]), case, finding="F33" if f33 else None)
+            if f33:
+                continue
+        if st3 not in (201, 204) or again != served:
+            ctx.violation("clean-up %r: the served object is not a fixed point of re-upload" % what, case)
+
+
 def witnesses(ctx):
     """the two unsafe shapes, on the running server: served content is not a fixed point"""
     shapes = {"F5": "DESCRIPTION:a" + " " * 150 + "b",
@@ -845,4 +910,5 @@ def run(ctx):
     bulk_names_level(ctx)
     date_list_quirk_level(ctx)
     request_charset_level(ctx)
+    documented_cleanups_level(ctx)
     witnesses(ctx)
